@@ -58,5 +58,58 @@ func opLongImport() error {
 			msg = "expected " + exp + ", got " + got
 		}
 	})
+	if msg == "" {
+		msg = rp.exportAfterFailedExport(seed)
+	}
 	return os.WriteFile(os.Getenv("VERIF_OUT"), []byte(fmt.Sprintf(`{"mismatch":%q,"rows":%d}`, msg, n+1)), 0o644)
+}
+
+// exportAfterFailedExport: an export that fails late (its destination cannot be written) must not leave anything behind
+// that a later export of another, smaller store picks up: export/import of the small store reproduces exactly its chain.
+func (rp *Replayer) exportAfterFailedExport(seed int64) string {
+	rp.S.Cfg.Db.PreparedDbFilePath = "no-such-directory/sub/long.csv.gz"
+	if err := database.ExportHeaders(rp.S.Cfg, &rp.S.log); err == nil {
+		return "" // the export found a way to write there: nothing to check
+	}
+	const m = 12
+	var b Behaviour
+	for i := 1; i <= m; i++ {
+		b.Hist = append(b.Hist, Step{Op: "add", ID: i, Parent: i - 1, Work: 1, Root: i})
+	}
+	c := Concretise(&b, rp.Genesis, seed+77)
+	if err := rp.S.Reset(); err != nil {
+		return "HARNESS: " + err.Error()
+	}
+	for _, st := range b.Hist {
+		if _, err, crashed := SafeAdd(rp.S.Svc.Chains, c.Source(st.ID)); err != nil || crashed != "" {
+			return fmt.Sprintf("ingest of the small store failed at %d: %v %s", st.ID, err, crashed)
+		}
+	}
+	name := "small.csv.gz"
+	rp.S.Cfg.Db.PreparedDbFilePath = name
+	if err := database.ExportHeaders(rp.S.Cfg, &rp.S.log); err != nil {
+		return "export of a 12-header store after a failed export of a larger one: " + err.Error()
+	}
+	orig, _ := rp.S.Rows()
+	cph := chainhash.Hash(c.hashBytes(m))
+	config.Checkpoints = []chaincfg.Checkpoint{{Height: int32(m), Hash: &cph}}
+	cfg := NewConfig("small-import.db")
+	cfg.Db.PreparedDb, cfg.Db.PreparedDbFilePath = true, name
+	db, err := database.Init(cfg, &rp.S.log)
+	if err != nil {
+		return "import of the export made after a failed export is refused: " + err.Error()
+	}
+	defer db.Close()
+	var cnt int
+	_ = db.Get(&cnt, "SELECT COUNT(*) FROM headers")
+	if cnt != m+1 {
+		return fmt.Sprintf("export after a failed export of a larger store: the imported database holds %d headers, the exported longest chain has %d", cnt, m+1)
+	}
+	msg := ""
+	rp.compareImported(db, c, orig, "none", 0, m+1, func(exp, got string) {
+		if msg == "" {
+			msg = "after a failed export: expected " + exp + ", got " + got
+		}
+	})
+	return msg
 }
